@@ -306,6 +306,16 @@ pub fn zlib_stored(data: &[u8]) -> Vec<u8> {
     out
 }
 
+/// LZW as PDF writers produce it (8-bit symbols, codes from 9 bits, most significant bit first),
+/// with the code width changing one code early (`/EarlyChange 1`, the default) or not (0).
+pub fn lzw(data: &[u8], early_change: bool) -> Vec<u8> {
+    use weezl::{encode::Encoder, BitOrder};
+    let mut enc = if early_change { Encoder::with_tiff_size_switch(BitOrder::Msb, 8) } else { Encoder::new(BitOrder::Msb, 8) };
+    let mut out = vec![];
+    enc.into_stream(&mut out).encode_all(data).status.expect("lzw encode");
+    out
+}
+
 pub fn ascii_hex(data: &[u8]) -> Vec<u8> {
     let mut out = Vec::with_capacity(data.len() * 2 + 1);
     for (i, b) in data.iter().enumerate() {
